@@ -181,7 +181,9 @@ func (r *Runner) RunKdc(s *KdcScript, tw *TraceWriter, rng *rand.Rand) error {
 			pmsg := make([]byte, 4+16)
 			binary.BigEndian.PutUint32(pmsg, 16)
 			pb, _ := asn1.Marshal(kdcProxyMsg{Message: pmsg, Realm: fmt.Sprintf("NOPE%d.EXAMPLE", k)})
-			rawExchange(strings.TrimPrefix(srv.URL, "http://"), "POST", "/KdcProxy", pb, false, 10*time.Second)
+			if st, _ := rawExchange(strings.TrimPrefix(srv.URL, "http://"), "POST", "/KdcProxy", pb, false, 2*time.Second); st <= 0 {
+				break // the proxy has stopped answering already: the judged request will show it
+			}
 		}
 	}
 	if s.After == "other-realm" || s.After == "unknown-realm" {
